@@ -33,6 +33,13 @@ MACHINES = {"FAKE": 0, "PSPM": 1, "WAPP": 2, "AOFTM": 3, "BPP": 4, "OOTY": 5, "S
             "PARSPEC": 9, "BPSR": 10, "COBALT": 11, "GMRTNEW": 14, "CHIME": 20, "MWA-VCS": 30, "MWAX-VCS": 31, "MWAX-RTB": 32}
 FRAMES = ["topocentric", "barycentric", "pulsarcentric"]
 S8 = 10 ** 8
+# one-byte characters that a "tidying" reader would drop (C string padding, line ends, other controls) and multi-byte
+# characters that str.strip() / normalisation / BOM handling would touch: a SIGPROC string is a counted block of bytes
+CTRL = ["\x00", "\t", "\n", "\r", "\x0b", "\x0c", "\x1f", "\x7f"]
+ODD_MB = ["\u00a0", "\u2028", "\ufeff", "e\u0301"]          # no-break space, line separator, BOM, e + combining acute
+# a character of the same UTF-8 length (for edits that keep both the character count and the byte count)
+SAME_LEN = {"é": "ü", "ü": "ß", "ß": "é", "Ω": "°", "°": "Ω", "\u00a0": "é", "\u0301": "ü", "–": "中", "中": "–", "\u2028": "中",
+            "\ufeff": "–", "\U0001f6f0": "\U0001f680"}
 
 
 # ------------------------------------------------------------------------------------------------------------------
@@ -141,11 +148,15 @@ class G:
         r = self.rng
         if n is None:
             n = r.choice([0, 1, 2, 5, 11, 16, 40, r.randrange(0, 300)])
-        return "".join(chr(r.choice([32, 45, 46, 47, 95] + list(range(48, 58)) + list(range(65, 91)) + list(range(97, 123)))) for _ in range(n))
+        s = [chr(r.choice([32, 45, 46, 47, 95] + list(range(48, 58)) + list(range(65, 91)) + list(range(97, 123)))) for _ in range(n)]
+        if n and r.random() < 0.2:
+            # a control character (one byte: the length is kept) first, last or anywhere
+            s[r.choice([0, n - 1, r.randrange(n)])] = r.choice(CTRL)
+        return "".join(s)
 
     def nonascii_str(self):
         r = self.rng
-        pool = ["é", "–", "Ω", "°", "中", "\U0001f6f0", "ü", "ß"]
+        pool = ["é", "–", "Ω", "°", "中", "\U0001f6f0", "ü", "ß"] + ODD_MB
         s = list(self.ascii_str(r.randrange(0, 12)))
         for _ in range(r.randrange(1, 4)):
             s.insert(r.randrange(len(s) + 1), r.choice(pool))
@@ -185,6 +196,17 @@ class G:
             ents.append((k, v))
         return ents
 
+    def same_length_swap(self, s):
+        """a different string with the same number of characters and the same UTF-8 length at every position"""
+        r = self.rng
+        out = []
+        for c in s:
+            if ord(c) < 128:
+                out.append(chr(r.choice(list(range(48, 58)) + list(range(65, 91)))))
+            else:
+                out.append(SAME_LEN.get(c, c))
+        return "".join(out)
+
     def data(self):
         r = self.rng
         return bytes(r.getrandbits(8) for _ in range(r.choice([0, 1, 7, 64, r.randrange(0, 200)])))
@@ -194,6 +216,8 @@ class G:
 # model values
 # ------------------------------------------------------------------------------------------------------------------
 def mval(v):
+    if type(v).__module__ == "numpy":
+        v = v.item()
     if v is None:
         return "VNone"
     if isinstance(v, bool):
@@ -309,7 +333,9 @@ def run_cases(R, name, cases, descr):
 def run(R: vlib.Run):
     warnings.filterwarnings("ignore")
     from astropy import units as u
-    from astropy.coordinates import Angle, SkyCoord
+    import numpy as np
+    from pathlib import Path
+    from astropy.coordinates import Angle, Latitude, Longitude, SkyCoord
     from sigpyproc.header import Header
     from sigpyproc.io import sigproc
 
@@ -322,7 +348,13 @@ def run(R: vlib.Run):
               "backend ids, the three frames, a sexagesimal grid of positions (both signs x degrees {0,1,45,89} x minutes {0,30,59} x "
               "seconds {0, 0.01, 30, 59.99, 59.99995, 59.999999996, 1e-5, 1.5e-5}) plus random positions (SkyCoord built in degrees or radians), azimuth/zenith "
               "Angles held in deg, rad, hourangle, arcmin, arcsec (all unit pairs), extreme channel/time values; (C) valid "
-              "and invalid (key, value) edits of files from (A).  A case is non-trivial when the header has at least three keys; "
+              "and invalid (key, value) edits of files from (A).  Strings: one in five ASCII strings carries a control character (NUL, "
+              "TAB, LF, CR, VT, FF, US, DEL) first, last or inside; the multi-byte pool includes NBSP, U+2028, BOM and a combining "
+              "accent; every one of these characters is also placed at both ends of a source name in (A), (B) and (C).  (B) also "
+              "writes time-series headers, the extreme finite fch1/foff values, pointing angles that are negative, beyond a full "
+              "turn or minus zero in every unit and Longitude/Latitude instances.  (C) also replaces multi-byte strings by strings of "
+              "the same character and byte count (and shorter padded source names), passes the file name as str or Path and "
+              "values as numpy scalars, bool, NaN and infinities.  A case is non-trivial when the header has at least three keys; "
               "distinct = distinct (kind, header bytes / field tuple / edit) triples")
     R.trusted += ["Coq 8.16.1 kernel + vm_compute (finite checks on the regenerated tables; witnesses; correspondence)",
                   "tools/py2coq/gen_c05.py: reading of the tables, of encode_key's length prefixes, of parse_radec's formatting and of the "
@@ -333,7 +365,15 @@ def run(R: vlib.Run):
                   "correspondence harness and oracle tools/harness/props/c05.py"]
     R.assume += ["binary64 evaluation of parse_radec's divmods differs from the exact-decimal model by < 1e-6 arcsec (checked on every case)",
                  "doubles are opaque 8-byte blocks in the model; int -> double conversion by struct.pack('d', int) is not modelled",
-                 "edit_header pads/truncates source_name by characters: modelled on bytes, i.e. for ASCII names"]
+                 "edit_header pads/truncates source_name by characters: modelled on bytes, i.e. for ASCII names",
+                 "Header -> file: the sampling time satisfies 1e-9 <= tsamp < 1e9 seconds (Header.to_sigproc evaluates every property of "
+                 "the Header, and Header.obs_time asks astropy for ceil(|log10 tsamp|) <= 9 decimals: prep_outfile raises ValueError "
+                 "outside that range, and for tsamp <= 0) and tstart is an MJD astropy can print as a calendar date",
+                 "strings in header bytes are valid UTF-8 (parse_header decodes them strictly: a source name in another 8-bit encoding, "
+                 "e.g. Latin-1 b'PSR\\xe9', makes it raise UnicodeDecodeError instead of being re-encoded byte for byte)",
+                 "the Header's SkyCoord is in the ICRS frame, as every constructor of the library makes it (the file stores the frame's "
+                 "own longitude/latitude without naming the frame and it is read back as ICRS: an FK5 position moves by about 0.03 "
+                 "arcsec, an FK4 position by its precession, and a frame without ra/dec such as galactic makes prep_outfile raise)"]
     R.prove("Props/C05.v")
     R.need(["Model/C05_HeaderCodec.vo", "Model/C05_RaDec.vo"])
 
@@ -364,13 +404,24 @@ def run(R: vlib.Run):
     # ---------------------------------------------------------------------------------------------------------
     nA = 120 if quick else 3000
     files = []      # (entries, header bytes, data) kept for (C)
-    for i in range(nA):
+    odd_files = []  # the subset whose strings carry a control / odd character at an end: always edited in (C)
+    odd = CTRL + ODD_MB + [None]
+    for i in range(nA + len(odd)):
         nonascii = (i % 6 == 5)
-        ents = g.entries(nonascii=nonascii)
+        if i >= nA:
+            # every control / odd character first and last in the source name and inside the raw data file name
+            # (last: multi-byte names with an ASCII tail, which (C) can shorten keeping both the character and the byte count)
+            c = odd[i - nA]
+            nonascii = c is None or not is_ascii(c)
+            ents = [e for e in g.entries(require=("nbits", "nchans", "source_name", "rawdatafile")) if KEYS[e[0]] != "str"]
+            ents.insert(rng.randrange(len(ents) + 1), ("source_name", c + "J0534+22" + c if c is not None else "éJ0534–22Ω.ab"))
+            ents.insert(rng.randrange(len(ents) + 1), ("rawdatafile", "raw" + c + "0001.fil" if c is not None else "中raw\U0001f6f0.fil"))
+        else:
+            ents = g.entries(nonascii=nonascii)
         hb, data = fmt_header(ents), g.data()
         write(hb + data)
         cls = "string-nonascii" if nonascii else None
-        R.case(("A", hb), nontrivial=len(ents) >= 3, regime="reencode_nonascii" if nonascii else "reencode_ascii",
+        R.case(("A", hb), nontrivial=len(ents) >= 3, regime="reencode_oddchars" if i >= nA else ("reencode_nonascii" if nonascii else "reencode_ascii"),
                sample={"kind": "A", "keys": [k for k, _ in ents][:6], "hdrlen": len(hb)} if i < 2 else None)
         case = {"entries": [(k, v if not isinstance(v, float) else repr(v)) for k, v in ents], "data_len": len(data)}
         try:
@@ -391,7 +442,9 @@ def run(R: vlib.Run):
         if back is not None and back != hb:
             fail(cls or "reencode-bytes", "encode_header(parse_header(bytes)) != bytes", {**case, "first_diff": next((j for j in range(min(len(back), len(hb))) if back[j] != hb[j]), min(len(back), len(hb)))})
         files.append((ents, hb, data))
-        if i < (60 if quick else 300):
+        if i >= nA:
+            odd_files.append((ents, hb, data))
+        if i < (60 if quick else 300) or i >= nA:
             corr.append((f"CParse {vlib.zlist(hb + data)} (Some ({mheader(got)}, {d['hdrlen']}))", {"kind": "parse", **case}))
             corr.append((f"CEnc {mheader(got)} {mobytes(back)}", {"kind": "encode", **case}))
     # malformed streams: model and implementation must agree on accept/reject (no oracle demand)
@@ -535,6 +588,20 @@ def run(R: vlib.Run):
         R.case(("B", t, b, f, h.ibeam), nontrivial=True, regime="ids_frames", sample={"kind": "B", "telescope": t, "backend": b, "frame": f} if nB < 1 else None)
         roundtrip(h, {})
         nB += 1
+    # B1b: a time-series header (what dedispersed_header makes: the other data type of the format), the extreme finite
+    # channelisation values Header.to_sigproc can take, and source names with a control / odd character at both ends
+    for kw in (dict(data_type="time series", nchans=1, nbits=32, dm=56.75, frame="barycentric", telescope="Parkes", backend="BPSR"),
+               dict(data_type="time series", nchans=1, nbits=8, foff=0.0, fch1=0.0)):
+        R.case(("Bt", str(sorted(kw.items()))), nontrivial=True, regime="timeseries_header")
+        roundtrip(mk(**kw), {"raise_key": "timeseries-raises"})
+    for kw in (dict(fch1=1.7976931348623157e308, foff=-5e-324, dm=1e-300), dict(fch1=-1.7976931348623157e308, foff=1.7976931348623157e308, nchans=4),
+               dict(fch1=5e-324, foff=2.2250738585072014e-308, dm=-0.0, tstart=0.0, tsamp=1e-9), dict(tsamp=9.999999e8, tstart=15020.0)):
+        R.case(("Bx", str(sorted(kw.items()))), nontrivial=True, regime="extreme_fields")
+        roundtrip(mk(**kw), {})
+    for c in CTRL + ODD_MB:
+        h = mk(source=c + "J0534+22" + c, rawdatafile="raw" + c + "0001.fil")
+        R.case(("Bo", c), nontrivial=True, regime="source_oddchars")
+        roundtrip(h, {} if is_ascii(c) else {"raise_key": "string-nonascii"})
     for name, idv in TELESCOPES.items():
         corr.append((f"CTelId {mkey(name)} {mk(telescope=name).telescope_id}", {"kind": "telescope_id", "name": name}))
     for name, idv in MACHINES.items():
@@ -588,13 +655,24 @@ def run(R: vlib.Run):
     pcases = [(uz, vz, ua, va) for uz in pvals for ua in pvals for vz, va in [(pvals[uz][1], pvals[ua][2]), (pvals[uz][3], pvals[ua][0])]]
     if quick:
         pcases = [c for c in pcases if c[0] == c[2] or c[0] == "deg" or c[2] == "deg"] + rng.sample(pcases, 6)
+    # ... and outside the usual ranges: negative, beyond a full turn / beyond the horizon, minus zero (the keys are plain doubles:
+    # nothing may wrap, clip or take the absolute value), in every unit and across units
+    pneg = {"deg": (-3.0, -10.5), "rad": (-0.0625, -0.25), "hourangle": (-0.25, -0.75), "arcmin": (-180.0, -630.0), "arcsec": (-10800.0, -37800.0)}
+    pbig = {"deg": (123.0, 725.5), "rad": (2.125, 12.75), "hourangle": (8.25, 48.5), "arcmin": (7380.0, 43530.0), "arcsec": (442800.0, 2611800.0)}
+    wide = [(un, pneg[un][0], un, pneg[un][1]) for un in pvals] + [(un, pbig[un][0], un, pbig[un][1]) for un in pvals] + \
+           [("deg", pneg["deg"][0], "rad", pbig["rad"][1]), ("rad", pbig["rad"][0], "deg", pneg["deg"][1]),
+            ("hourangle", pneg["hourangle"][0], "arcsec", pbig["arcsec"][1]), ("deg", -0.0, "deg", 0.0), ("rad", 0.0, "rad", -0.0)]
+    pcases += wide
     for uz, vz, ua, va in pcases:
         # zenith angles beyond 90 deg are unphysical but legal for the field; keep them inside [0, 90] when the unit allows
-        if u.Quantity(vz, uz).to_value(u.deg) > 90:
+        if (uz, vz, ua, va) in wide:
+            pass
+        elif u.Quantity(vz, uz).to_value(u.deg) > 90:
             vz = float(u.Quantity(45.0, u.deg).to_value(uz)) if uz != "deg" else 45.0
             vz = round(vz * 8) / 8
         h = mk(azimuth=Angle(va, unit=ua), zenith=Angle(vz, unit=uz))
-        R.case(("Bu", uz, vz, ua, va), nontrivial=True, regime="pointing_units_deg" if (uz == ua == "deg") else "pointing_units_other",
+        R.case(("Bu", uz, repr(vz), ua, repr(va)), nontrivial=True,
+               regime="pointing_out_of_range" if (uz, vz, ua, va) in wide else ("pointing_units_deg" if (uz == ua == "deg") else "pointing_units_other"),
                sample={"kind": "B", "zenith": f"{vz} {uz}", "azimuth": f"{va} {ua}"} if (uz, ua) == ("rad", "hourangle") else None)
         q = roundtrip(h, {})
         if q is not None:
@@ -602,13 +680,18 @@ def run(R: vlib.Run):
             corr.append((f"CPoint ({qlit(vz)}, {UNITS[uz]}) ({qlit(va)}, {UNITS[ua]}) {qlit(float(raw['za_start']))} {qlit(float(raw['az_start']))} "
                          f"{qlit(float(q.zenith.to_value(u.deg)))} {qlit(float(q.azimuth.to_value(u.deg)))}",
                          {"kind": "pointing", "zenith": f"{vz} {uz}", "azimuth": f"{va} {ua}"}))
+    # the Angle subclasses with a range of their own (they pass the Header's validator): stored as plain degrees
+    for ua, va, uz, vz in (("deg", 211.5, "deg", 33.25), ("hourangle", 23.5, "rad", -0.5), ("rad", 6.25, "arcmin", 5399.5)):
+        h = mk(azimuth=Longitude(va, unit=ua), zenith=Latitude(vz, unit=uz))
+        R.case(("Bl", ua, va, uz, vz), nontrivial=True, regime="pointing_longitude_latitude")
+        roundtrip(h, {})
     # B3: random headers
     for i in range(60 if quick else 4000):
         dec = rng.choice([rng.uniform(-90, 90), rng.uniform(-1, 0), rng.uniform(-1, 1), round(rng.uniform(-90, 90), 2)])
         ra = rng.choice([rng.uniform(0, 360), round(rng.uniform(0, 360), 3), 359.9999999])
         nonascii = (i % 10 == 9)
         # Header.to_sigproc evaluates every property of the header (chan_freqs allocates nchans floats, obs_time needs a
-        # positive sampling time and an MJD astropy can represent): (B) stays inside that physical range, the extreme
+        # sampling time in [1e-9, 1e9) s -- see R.assume -- and an MJD astropy can represent): (B) stays inside that physical range, the extreme
         # uint32 / double values are exercised at the codec level in (A)
         def phys():
             x = g.finite_double()
@@ -650,20 +733,40 @@ def run(R: vlib.Run):
         for k, v in ents:
             if KEYS[k] == "str" and is_ascii(v) and len(v) >= 3 and rng.random() < 0.5:
                 out.append((k, "é" + g.ascii_str(len(v) - 2)))       # same byte length, one two-byte character
+        for k, v in ents:
+            if KEYS[k] == "str" and not is_ascii(v):
+                # a multi-byte value replaced by one with the same number of characters AND of bytes: a valid edit of either
+                # string key; for source_name also a shorter name whose blank padding restores both counts (only ASCII
+                # characters dropped from the end)
+                sw = g.same_length_swap(v)
+                out.append((k, sw))
+                tail = len(v) - len(v.rstrip("".join(chr(i) for i in range(128))))
+                if k == "source_name" and tail and not is_ascii(sw[:len(v) - tail]):
+                    out.append((k, sw[:len(v) - rng.randrange(1, tail + 1)]))
+        # the same valid values as other numeric types (numpy scalars, bool), and the non-finite doubles
+        for k, v in rng.sample(ents, min(len(ents), 2)):
+            code = KEYS[k]
+            if code == "I":
+                out += [(k, np.uint32(g.uint())), (k, rng.choice([np.int64(g.uint()), True, np.uint8(200)]))]
+            elif code == "b":
+                out += [(k, np.int8(rng.randrange(-128, 128))), (k, rng.choice([True, False, np.int64(-128)]))]
+            elif code == "d":
+                out += [(k, np.float64(g.finite_double())), (k, rng.choice([np.float32(1.5), np.float32(-3.0e38), float("nan"), float("inf"), float("-inf")]))]
         return out
 
     nC = 0
-    for ents, hb, data in (files if not quick else rng.sample(files, min(len(files), 60))):
-        if not all(is_ascii(v) for _, v in ents if isinstance(v, str)) and rng.random() < 0.5:
+    for ents, hb, data in (files if not quick else rng.sample(files, min(len(files), 60)) + [f for f in odd_files]):
+        if not all(is_ascii(v) for _, v in ents if isinstance(v, str)) and rng.random() < 0.5 and (ents, hb, data) not in odd_files:
             continue
         for k, v in edits_for(ents):
             before = hb + data
             write(before)
             na = (isinstance(v, str) and not is_ascii(v)) or not all(is_ascii(x) for _, x in ents if isinstance(x, str))
+            as_path = rng.random() < 0.3        # the file name as pathlib.Path (the signature takes both)
             case = {"entries": [(a, b if not isinstance(b, float) else repr(b)) for a, b in ents], "data_len": len(data), "key": k,
-                    "value": v if not isinstance(v, float) else repr(v)}
+                    "value": v if not (isinstance(v, float) or type(v).__module__ == "numpy") else repr(v), "filename_as": "Path" if as_path else "str"}
             try:
-                sigproc.edit_header(path, k, v)
+                sigproc.edit_header(Path(path) if as_path else path, k, v)
                 raised = None
             except Exception as e:  # noqa: BLE001
                 raised = e
